@@ -34,6 +34,11 @@ const POOL: &[&str] = &[
     "||z.com^$csp=d9",
     "||x.com^$csp=script-src 'none'",
     "@@||x.com^$csp=script-src 'none'",
+    // pattern-less rules filed under nested initiator domains: a page on sub.y.com probes the
+    // buckets of sub.y.com, y.com and com, and every one of them can hold applicable rules
+    "$csp=d10,domain=sub.y.com",
+    "@@$csp=d8,domain=sub.y.com",
+    "@@$csp=d10,domain=y.com",
 ];
 
 fn requests() -> Vec<Req> {
@@ -43,6 +48,7 @@ fn requests() -> Vec<Req> {
         ("https://x.com/p", "https://y.com/"),
         ("https://sub.x.com/p", "https://y.com/"),
         ("http://x.com/p", "https://sub.y.com/a"),
+        ("https://x.com/p", "https://a.sub.y.com/"),
         ("https://x.com/p", ""),
         ("https://z.com/", "https://x.com/"),
         ("https://w.com/", "https://y.com/"),
